@@ -277,7 +277,8 @@ impl<'a> Compiler<'a> {
                 // CloseUpvalue can fail at runtime, so it needs a trace entry
                 self.push_instruction(Instruction::CloseUpvalue);
             } else {
-                self.program.bytecode.push(Instruction::Pop as u8);
+                // any instruction can be the one the budget runs out on: it needs a trace entry
+                self.push_instruction(Instruction::Pop);
             }
         }
     }
